@@ -10,6 +10,14 @@ pub assume_specification<F: FnOnce() -> Ordering> [Ordering::then_with] (o: Orde
     ensures o != Ordering::Equal ==> r == o, o == Ordering::Equal ==> f.ensures((), r);
 pub assume_specification [Ordering::is_lt] (o: Ordering) -> (r: bool)
     ensures r == (o == Ordering::Less);
+pub assume_specification [Ordering::is_le] (o: Ordering) -> (r: bool)
+    ensures r == (o != Ordering::Greater);
+pub assume_specification [Ordering::is_gt] (o: Ordering) -> (r: bool)
+    ensures r == (o == Ordering::Greater);
+pub assume_specification [Ordering::is_ge] (o: Ordering) -> (r: bool)
+    ensures r == (o != Ordering::Less);
+pub assume_specification [Ordering::is_eq] (o: Ordering) -> (r: bool)
+    ensures r == (o == Ordering::Equal);
 
 // the documented order of C18 over (denominator, |numerator|, sign): smaller denominator first, then smaller
 // numerator magnitude, then positive before negative
